@@ -8,7 +8,7 @@ and runs `VERIF_REPO=<copy> ./check C02`.  Never touches /repo.
 Expectation per entry: 'viol' = property-breaking, must be a VIOLATION with a failing input;
 'tie' = unobservable on the installed JAX but breaks what the proof relies on: VIOLATION
 no-failing-input-found; 'ok' = equivalent change, must stay OK (no false alarm).
-The seeded changes C02-s1 / s2 / t1 / t2 / u1 / u2 are run through tools/seed_run.sh as well
+The seeded changes C02-s1 / s2 / t1 / t2 / u1 / u2 / v1 / v2 are run through tools/seed_run.sh as well
 (all must be VIOLATIONs with a failing input).
 """
 import json
@@ -30,6 +30,8 @@ MUTS = {
     'trunc_max': ('viol', "step_results[: block.num_batches[i]]", "step_results[: block.num_batches[0]]"),
     'split_wrong_lane': ('viol', "lambda x: x[i],  # pylint: disable=cell-var-from-loop", "lambda x: x[i - 1],  # pylint: disable=cell-var-from-loop"),
     'no_reverse': ('ok', "        outputs.reverse()\n", ""),
+    'pad_by_none_id': ('viol', "          if not block.client_mask[i]:\n            continue\n", "          if block.client_id[i] is None:\n            continue\n"),
+    'pad_by_falsy_id': ('viol', "          if not block.client_mask[i]:\n            continue\n", "          if not block.client_id[i]:\n            continue\n"),
     'sort_asc': ('viol', "clients.sort(key=lambda x: len(x[1]), reverse=True)", "clients.sort(key=lambda x: len(x[1]))"),
     'ids_unsorted': ('viol', "client_id=[client_id for client_id, _, _ in block],", "client_id=[client_id for client_id, _, _ in sorted(block, key=lambda c: str(c[0]))],"),
     'range_drop_last': ('viol', "for i in range(0, len(clients), block_size):", "for i in range(0, len(clients) - 1, block_size):"),
